@@ -4,6 +4,7 @@ from __future__ import annotations
 import importlib
 import json
 import os
+import pathlib
 import sys
 import time
 import traceback
@@ -115,8 +116,9 @@ def main(argv=None):
         print(f"ANALYSIS-ERROR unknown property {pid}")
         return 2
     t0 = time.time()
-    ev_path = VERIF / "evidence" / f"{pid}.json"
-    ev_path.parent.mkdir(exist_ok=True)
+    ev_dir = pathlib.Path(os.environ["FDV_EVIDENCE"]) if os.environ.get("FDV_EVIDENCE") else VERIF / "evidence"   # dev sweeps write elsewhere
+    ev_path = ev_dir / f"{pid}.json"
+    ev_path.parent.mkdir(parents=True, exist_ok=True)
     try:
         ss = SourceSet.load()
         rep = run_property(pid, ss, tier, seed)
@@ -136,8 +138,8 @@ def main(argv=None):
             return 1 if hit else 0
         if tier == "thorough" and not new:
             mutant_audit(pid, ss, rep, seed)
-        wdir = VERIF / "evidence" / "witness"
-        wdir.mkdir(exist_ok=True)
+        wdir = ev_dir / "witness"
+        wdir.mkdir(parents=True, exist_ok=True)
         for old_w in wdir.glob(f"{pid}-*.json"):
             old_w.unlink()
         ev = rep.evidence(level=getattr(mod, "LEVEL", "other"), explanation=getattr(mod, "EXPLANATION", ""), violations=len(new))
